@@ -1,6 +1,7 @@
 import Mochi.Lemmas.Invariant
 import Mochi.Lemmas.Refine
 import Mochi.Lemmas.IndexConc
+import Mochi.Gen.RootLock
 /-!
 # C31 — The topic index stays consistent under any concurrent history (sequential core)
 
@@ -89,6 +90,13 @@ example :
     let progs : List (List IOp) := [[.subscribe [1] { filter := [97] }, .unsubscribe [97] [2]], [.subscribe [2] { filter := [97] }]]
     let s := runSched true (start progs) [0, 1, 0, 0, 0, 1, 1, 1, 1, 0, 0, 0, 0]
     finished s = true ∧ s.log.map (·.1) = [0, 1, 0] ∧ (s.idx.nodes.map (·.subs.length)) = [1] := by decide
+
+/-- **The root-lock fact, regenerated from topics.go on every run (tie A).** Each of the five mutators
+    of `TopicsIndex` begins with `x.root.Lock()` followed by `defer x.root.Unlock()` — the premise under
+    which `C31_serializable` describes the code (`locked = true`). A mutator that loses the bracket turns
+    its entry to `false` in `Gen/RootLock.lean` and this obligation fails. -/
+theorem C31_root_lock_fact :
+    Mochi.Gen.rootLockFacts.length = 5 ∧ (Mochi.Gen.rootLockFacts.map (·.2)) = [true, true, true, true, true] := by decide
 
 /-- non-vacuity: unsubscribing one of two clients keeps the particle, unsubscribing both removes the
     whole branch -/
